@@ -48,8 +48,6 @@ def reachable (s : Slot) (e : Env) : Bool :=
   | .route false _ => e.dial == .conn && !e.sendRouteFails && e.status == some 0 && !e.linkFails
   | _ => false
 
-def isRoute : Slot → Bool | .route _ _ => true | _ => false
-
 /-- "trying routes through the local node first": no proxied dial before a direct one -/
 def localFirst : List String → Bool
   | [] => true
@@ -77,7 +75,12 @@ def specDial (slots : List Slot) (envs : List Env) (h alpn out tried got : Strin
   else if anyReach then some "a published client is reachable: want found"
   else if anyRoute then
     (if out = "notconnected" then none else some "H has routes but no client reachable: want notconnected")
-  else none
+  -- no lookup returned a route, at least one lookup failed: nothing is recorded in H's routes, so the
+  -- gateway may not claim that H has routes (not-connected); it answers not-found, or lookup-failed
+  -- (which the statement leaves open) as long as some lookup really failed
+  else if out = "notconnected" then some "H has no routes (no lookup returned one): notconnected is only for a hostname with routes, want notfound"
+  else if out = "notfound" || out = "lookupfailed" then none
+  else some "H has no routes (no lookup returned one): want notfound"
 
 def step (_ : Unit) (toks : List String) (rhs : String) : Unit × Verdict :=
   match toks with
